@@ -293,7 +293,7 @@ func commitKey(db *NoKV.DB, reader *Reader, key []byte, lock *Lock, commitVersio
 	if lock.MinCommitTs > commitVersion {
 		return keyErrorCommitTsExpired(key, commitVersion, lock.MinCommitTs)
 	}
-	write, commitTs, err := reader.GetWriteByStartTs(key, lock.Ts)
+	write, _, err := reader.GetWriteByStartTs(key, lock.Ts)
 	if err != nil {
 		return keyErrorRetryable(err)
 	}
@@ -301,12 +301,11 @@ func commitKey(db *NoKV.DB, reader *Reader, key []byte, lock *Lock, commitVersio
 		if write.Kind == pb.Mutation_Rollback {
 			return keyErrorAbort("transaction already rolled back")
 		}
-		if commitTs != commitVersion {
-			// Already committed with a different commit version; treat as success.
-			if err := db.DeleteVersionedEntry(kv.CFLock, key, lockColumnTs); err != nil && err != utils.ErrKeyNotFound {
-				return keyErrorRetryable(err)
-			}
-			return nil
+		// The transaction's commit record exists (a retried Commit, possibly after
+		// the lock removal of an earlier attempt failed): finish the step by
+		// removing the transaction's lock.
+		if err := db.DeleteVersionedEntry(kv.CFLock, key, lockColumnTs); err != nil && err != utils.ErrKeyNotFound {
+			return keyErrorRetryable(err)
 		}
 		return nil
 	}
